@@ -284,6 +284,35 @@ def c09_extra(tier, seed, ctx):
             evals += 1
             distinct.add((fen, lim))
             violations += robust(deep_mate, attempts=2)
+    # a go whose only end is the stop sent right behind it (both lines in one write): still exactly one bestmove, promptly
+    for fen in chosen[:3]:
+        for go in ("go infinite", "go movetime 600000", "go depth 200", "go"):
+            def go_stop(scale, fen=fen, go=go):
+                e2 = Engine(ctx["engine"])
+                e2.send(f"position fen {fen}")
+                e2.send("isready")
+                e2.wait_for(lambda l: l == "readyok", 5.0 * scale)
+                idx = len(e2.lines())
+                e2.send_raw((go + "\nstop\n").encode())
+                i = e2.wait_for(lambda l: l.startswith("bestmove"), 3.0 * scale, idx)
+                out = []
+                if i is None:
+                    out.append(viol("C09", "no-bestmove", f"fen=[{fen}] [{go}] and [stop] sent in one write: no bestmove within {3.0 * scale:.1f} s"))
+                    e2.kill()
+                    return out
+                queries.append((fen, "", (e2.lines()[i][1].split() + [""])[1]))
+                e2.send("isready")
+                if e2.wait_for(lambda l: l == "readyok", 3.0 * scale, i) is None:
+                    out.append(viol("C09", "not-ready-after-bestmove", f"fen=[{fen}] [{go}] + [stop]"))
+                time.sleep(0.05)
+                if e2.count("bestmove", idx) != 1:
+                    out.append(viol("C09", "bestmove-count", f"fen=[{fen}] [{go}] + [stop]: {e2.count('bestmove', idx)} bestmove lines"))
+                e2.send("quit")
+                e2.close()
+                return out
+            evals += 1
+            distinct.add((fen, go + "+stop"))
+            violations += robust(go_stop, attempts=3)
     # the position the go is answered for is the one the LAST accepted position command described, whatever came before it
     START = SEEDS[0]
     other = "rnbqkbnr/pppp1ppp/8/4p3/3QP3/8/PPP2PPP/RNB1KBNR w KQkq - 0 3"
@@ -339,7 +368,11 @@ SCHEDULES = [
     ("go-refused-then-stop-then-go", {}, [(0, "go infinite"), (60, "go depth 1"), (30, "stop"), (150, "go depth 1")], 2),
     ("ucinewgame-and-setoption-during-search", {}, [(0, "go infinite"), (50, "ucinewgame"), (20, "setoption name Hash value 1"), (30, "stop"), (150, "go depth 1")], 2),
     ("ucinewgame-then-go-during-search", {}, [(0, "go infinite"), (50, "ucinewgame"), (30, "go depth 1"), (30, "stop")], 1),
+    # lines the parser rejects (no effect, no command_done label) must not swallow what follows them
+    ("rejected-line-during-search", {}, [(0, "go infinite"), (50, "debug on"), (30, "stop")], 1),
+    ("rejected-lines-then-go", {}, [(0, "ponderhit"), (20, "go depth 1"), (300, "xyzzy 1 2"), (0, "go wtime"), (20, "go depth 1")], 2),
 ]
+REJECTED_LINES = {"debug on", "ponderhit", "xyzzy 1 2", "go wtime"}
 
 
 def causal_repair(toks, trace):
@@ -401,7 +434,7 @@ def run_schedule(engine, fen, name, delays, script, expected, scale):
     for sleep_ms, line in script:
         time.sleep(sleep_ms / 1000.0)
         eng.send(line)
-        if line.startswith("go"):
+        if line.startswith("go") and line not in REJECTED_LINES:
             gos += 1
         if line == "stop" and stop_time is None:
             stop_time = time.time() - eng.t0
@@ -439,6 +472,8 @@ def run_schedule(engine, fen, name, delays, script, expected, scale):
     # the realised order of the labelled points, replayed on the Lean protocol model
     toks = []
     for _, line in script:
+        if line in REJECTED_LINES:
+            continue
         t = line.split()
         toks.append("gi" if t[:2] == ["go", "infinite"] else "gf" if t[0] == "go" else "s" if t[0] == "stop" else "r" if t[0] == "isready" else "p")
     labels = causal_repair(toks, trace)
@@ -587,6 +622,22 @@ def junk_line(rng):
     return line
 
 
+BOUNDARY_NUMS = ["0", "1", "2", "255", "256", "65535", "65536", "2147483647", "2147483648", "4294967295", "4294967296",
+                 "9223372036854775807", "9223372036854775808", "18446744073709551615", "18446744073709551616", "-1", "00", "+0"]
+
+
+def boundary_go(rng):
+    """a syntactically plausible go line whose numbers sit on the edges of the integer types (zero divisors, off-by-one, overflow)"""
+    keys = ["wtime", "btime", "winc", "binc", "movetime", "nodes", "movestogo", "mate", "depth"]
+    parts = ["go"]
+    for k in rng.sample(keys, rng.randrange(1, 5)):
+        v = rng.choice(BOUNDARY_NUMS) if rng.random() < 0.7 else str(rng.randrange(0, 5000))
+        if k == "depth" and (not v.isdigit() or int(v) > 3):
+            v = rng.choice(["0", "1", "2"])
+        parts += [k, v]
+    return " ".join(parts)
+
+
 def c15_extra(tier, seed, ctx):
     rng = random.Random(seed * 104729 + 5)
     violations, samples, evals = [], [], 0
@@ -600,6 +651,7 @@ def c15_extra(tier, seed, ctx):
         lines += ["position startpos moves e2e4 x" + "é" * 30, "xx" + "€é" * 20 + " isready", " ", "\t", "  \t ", ""]
         lines += rng.sample(["go wtime", "setoption name value", "setoption value x name y", "go depth", "go nodes -3", "position", "position startpos moves e2e5",
                              "setoption", "go movetime 99999999999999999999999999999999999999999", "position startpos moves"], 4)
+        lines += [boundary_go(rng) for _ in range(4)]
         rng.shuffle(lines)
         mode = sidx % 4
         for l in lines:
@@ -840,6 +892,28 @@ def c16_extra(tier, seed, ctx):
             stalled = int(m.group(1)) if m else None
             detail += f"; a run stopped for {ms / 1000.0 + 2.0:.0f} s reports {stalled} nodes, an undisturbed one {totals[0]}"
         violations.append(viol("C16", "bench-search-has-a-time-limit", detail))
+    # `bench` typed into a UCI session that has already searched (warm cache): either it is not a session command at all (rejected,
+    # the session stays responsive) or it prints the same node total as the subcommand
+    try:
+        first_fen = re.search(r'"([^"]+)"', open(os.path.join(ctx["repo"], "src", "bench.rs")).read().split("FENS", 1)[1]).group(1)
+    except Exception:
+        first_fen = SEEDS[0]
+    eng = Engine(ctx["engine"])
+    eng.send(f"position fen {first_fen}")
+    eng.send("go depth 4")
+    eng.wait_for(lambda l: l.startswith("bestmove"), 60.0)
+    idx = len(eng.lines())
+    eng.send("bench")
+    eng.send("isready")
+    eng.wait_for(lambda l: l == "readyok", 600.0, idx)
+    sess = [l for _, l in eng.lines()[idx:]]
+    eng.send("quit")
+    eng.close()
+    evals += 1
+    m = next((re.match(r"^(\d+) nodes", l) for l in sess if re.match(r"^(\d+) nodes", l)), None)
+    if m and totals and totals[0] is not None and int(m.group(1)) != totals[0]:
+        violations.append(viol("C16", "bench-totals-differ", f"`bench` inside a session after `position fen {first_fen}` / `go depth 4` reports {m.group(1)} nodes, the subcommand {totals[0]}"))
+    bench["bench_in_session"] = ("rejected" if not m else f"{m.group(1)} nodes")
     samples.append(f"bench node totals {totals}, {len(bench_limits)} searches traced, none time-limited" if not bad else f"bench: {bad[0]}")
     return dict({"violations": violations, "evaluations": evals, "distinct_nontrivial": max(2, len(distinct)), "samples": samples, "ok": not violations}, **bench)
 
